@@ -189,10 +189,7 @@ func checkC18(w *World, r *Report) {
 
 	r.Rule("R18.8", "a default under a choice is added only when its case is the active or default one: in the decorator's loop over default children, the path on which IsActiveDefault answered false cannot reach the append of the created default", 1)
 	r.guard("R18.8", func() {
-		f := w.SSAFunc(w.Method("schema", "addDefaults", "yangDataChildren"))
-		if f == nil {
-			panic(undecided{"schema.addDefaults.yangDataChildren"})
-		}
+		f, _ := c18DefaultLoop(w)
 		isActive := w.SSAFunc(w.Func("schema", "IsActiveDefault"))
 		create := w.SSAFunc(w.Func("schema", "createDefault"))
 		var appendBlocks []*ssa.BasicBlock
@@ -245,10 +242,7 @@ func checkC18(w *World, r *Report) {
 
 	r.Rule("R18.9", "whether a choice or case holds configuration is asked of that very node: the checker the decorator hands to IsActiveDefault is a closure that returns hasCfg(seen, node) for its argument, with no table in between (choices, cases and nested choices may share a name)", 1)
 	r.guard("R18.9", func() {
-		f := w.SSAFunc(w.Method("schema", "addDefaults", "yangDataChildren"))
-		if f == nil {
-			panic(undecided{"schema.addDefaults.yangDataChildren"})
-		}
+		f, _ := c18DefaultLoop(w)
 		isActive := w.SSAFunc(w.Func("schema", "IsActiveDefault"))
 		checked := false
 		for _, b := range f.Blocks {
@@ -356,7 +350,11 @@ func checkC18(w *World, r *Report) {
 			for _, b := range f.Blocks {
 				for _, in := range b.Instrs {
 					if c, ok := in.(ssa.CallInstruction); ok && c.Common().IsInvoke() && nm(c.Common().Method) == "DefaultChildren" {
-						callers = append(callers, f.Name())
+						if dl, _ := c18DefaultLoop(w); f == dl {
+							callers = append(callers, "yangDataChildren") // the decorator's own loop, possibly in its helper
+						} else {
+							callers = append(callers, f.Name())
+						}
 					}
 				}
 			}
@@ -450,7 +448,8 @@ func checkC18(w *World, r *Report) {
 
 	r.Rule("R18.3", "explicit data wins and decoration is idempotent in what it adds: a default is created only for a child name not already present; a leaf's HasDefault agrees with its Default (which suppresses a type default on a mandatory leaf)", 2)
 	r.guard("R18.3", func() {
-		fd, _ := w.FuncDecl(w.Method("schema", "addDefaults", "yangDataChildren"))
+		_, dlo := c18DefaultLoop(w)
+		fd, _ := w.FuncDecl(dlo)
 		create := w.Func("schema", "createDefault")
 		ok := false
 		ast.Inspect(fd.Body, func(x ast.Node) bool {
@@ -931,4 +930,37 @@ func c18CardinalityVerdict(w *World, mn, mx, count int64) (isErr bool, why strin
 		return false, fmt.Sprintf("%d exits taken at once", taken)
 	}
 	return isErr, ""
+}
+
+// c18DefaultLoop: the function that holds the decorator's loop over the default
+// children — addDefaults.yangDataChildren, or the helper of the package it
+// hands that half of its work to (the one that calls createDefault).
+func c18DefaultLoop(w *World) (*ssa.Function, *types.Func) {
+	mo := w.Method("schema", "addDefaults", "yangDataChildren")
+	m := w.SSAFunc(mo)
+	create := w.SSAFunc(w.Func("schema", "createDefault"))
+	if m == nil || create == nil {
+		panic(undecided{"schema.addDefaults.yangDataChildren / createDefault"})
+	}
+	calls := func(g *ssa.Function) bool {
+		for _, b := range g.Blocks {
+			for _, in := range b.Instrs {
+				if c, ok := in.(*ssa.Call); ok && c.Call.StaticCallee() == create {
+					return true
+				}
+			}
+		}
+		return false
+	}
+	if calls(m) {
+		return m, mo
+	}
+	for g := range calleesDeep(m, 1) {
+		if g.Pkg == m.Pkg && g.Blocks != nil && g.Parent() == nil && calls(g) {
+			if o, ok := g.Object().(*types.Func); ok {
+				return g, o
+			}
+		}
+	}
+	panic(undecided{"yangDataChildren: the loop that creates the missing defaults"})
 }
